@@ -6,6 +6,7 @@ import (
 	"encoding/binary"
 	"errors"
 	"fmt"
+	"reflect"
 	"sort"
 	"strings"
 
@@ -146,6 +147,103 @@ type world struct {
 	KeyOwnerText *string
 	SigOwnerText *string
 	SignerText   *string
+	// letters written as \DDD escapes in the names handed to the library (round 7): per site a mask,
+	// bit (i mod 64) set = the i-th octet of the name, if it is an ASCII letter, is written \DDD.
+	// Every spelling denotes the same octets, so the reference side never looks at this.
+	Spell spelling
+}
+
+// spelling says which letters of which names reach the library as \DDD escapes ("\065" for "A").
+// Only letters are ever spelled that way: the class is "a letter that the text-level case folding
+// (CanonicalName / strings.ToLower / equal) does not recognise as one".
+type spelling struct {
+	Owner    uint64 // owner of every record of the RRset
+	SigOwner uint64 // owner of the RRSIG (for Sign: copied from the first record by Sign itself)
+	Signer   uint64 // signer name in the RRSIG
+	KeyOwner uint64 // owner of the DNSKEY
+	Rdata    uint64 // every domain name in the RDATA of the records
+}
+
+func (s spelling) any() bool { return s != spelling{} }
+
+func isLetter(b byte) bool { return b >= 'a' && b <= 'z' || b >= 'A' && b <= 'Z' }
+
+// spellName is the presentation form of n with the letters selected by mask written as \DDD.
+func spellName(n wm.Name, mask uint64) string {
+	if mask == 0 || len(n) == 0 {
+		return wm.EscName(n)
+	}
+	var sb strings.Builder
+	i := 0
+	for _, l := range n {
+		for _, b := range l {
+			if isLetter(b) && mask>>(uint(i)%64)&1 == 1 {
+				fmt.Fprintf(&sb, "\\%03d", b)
+			} else {
+				sb.WriteString(wm.EscLabel([]byte{b}))
+			}
+			i++
+		}
+		sb.WriteByte('.')
+	}
+	return sb.String()
+}
+
+// spelledLetters reports whether mask selects a letter of n (upper: an upper-case one).
+func spelledLetters(n wm.Name, mask uint64, upper bool) bool {
+	i := 0
+	for _, l := range n {
+		for _, b := range l {
+			if mask>>(uint(i)%64)&1 == 1 && (b >= 'A' && b <= 'Z' || !upper && b >= 'a' && b <= 'z') {
+				return true
+			}
+			i++
+		}
+	}
+	return false
+}
+
+// respellRdata rewrites every domain name field of rr (struct tags dns:"domain-name" /
+// dns:"cdomain-name", strings and string lists) with spellName.
+func respellRdata(rr dns.RR, mask uint64) {
+	v := reflect.ValueOf(rr)
+	if v.Kind() != reflect.Pointer || v.Elem().Kind() != reflect.Struct {
+		return
+	}
+	respellStruct(v.Elem(), mask)
+}
+
+func respellStruct(v reflect.Value, mask uint64) {
+	t := v.Type()
+	for i := 0; i < t.NumField(); i++ {
+		f, fv := t.Field(i), v.Field(i)
+		if f.Name == "Hdr" || !fv.CanSet() {
+			continue
+		}
+		if f.Anonymous && fv.Kind() == reflect.Struct {
+			respellStruct(fv, mask)
+			continue
+		}
+		if tag := f.Tag.Get("dns"); tag != "domain-name" && tag != "cdomain-name" {
+			continue
+		}
+		re := func(s string) string {
+			if n, _, err := wm.UnescName(s); err == nil && len(n) > 0 {
+				return spellName(n, mask)
+			}
+			return s
+		}
+		switch fv.Kind() {
+		case reflect.String:
+			fv.SetString(re(fv.String()))
+		case reflect.Slice:
+			if fv.Type().Elem().Kind() == reflect.String {
+				for j := 0; j < fv.Len(); j++ {
+					fv.Index(j).SetString(re(fv.Index(j).String()))
+				}
+			}
+		}
+	}
 }
 
 // rawEsc is the presentation form with octets >= 0x80 left raw (a legal spelling: the escape is
@@ -314,6 +412,12 @@ func (w world) libSet() ([]dns.RR, error) {
 		if err != nil {
 			return nil, err
 		}
+		if w.Spell.Owner != 0 {
+			rr.Header().Name = spellName(r.Name, w.Spell.Owner)
+		}
+		if w.Spell.Rdata != 0 {
+			respellRdata(rr, w.Spell.Rdata)
+		}
 		out = append(out, rr)
 	}
 	return out, nil
@@ -328,10 +432,10 @@ func (w world) libKey() *dns.DNSKEY {
 		return k
 	}
 	if w.KeyText != nil {
-		return &dns.DNSKEY{Hdr: dns.RR_Header{Name: wm.EscName(w.KeyOwner), Rrtype: dns.TypeDNSKEY, Class: w.KeyClass, Ttl: 3600},
+		return &dns.DNSKEY{Hdr: dns.RR_Header{Name: spellName(w.KeyOwner, w.Spell.KeyOwner), Rrtype: dns.TypeDNSKEY, Class: w.KeyClass, Ttl: 3600},
 			Flags: w.KeyFlags, Protocol: w.KeyProto, Algorithm: w.KeyAlg, PublicKey: *w.KeyText}
 	}
-	return &dns.DNSKEY{Hdr: dns.RR_Header{Name: wm.EscName(w.KeyOwner), Rrtype: dns.TypeDNSKEY, Class: w.KeyClass, Ttl: 3600},
+	return &dns.DNSKEY{Hdr: dns.RR_Header{Name: spellName(w.KeyOwner, w.Spell.KeyOwner), Rrtype: dns.TypeDNSKEY, Class: w.KeyClass, Ttl: 3600},
 		Flags: w.KeyFlags, Protocol: w.KeyProto, Algorithm: w.KeyAlg, PublicKey: base64.StdEncoding.EncodeToString(w.KeyOctets)}
 }
 
@@ -355,9 +459,9 @@ func (w world) libSig() *dns.RRSIG {
 		r.Signature = *w.SigText
 		return r
 	}
-	return &dns.RRSIG{Hdr: dns.RR_Header{Name: wm.EscName(w.SigOwner), Rrtype: dns.TypeRRSIG, Class: w.SigClass, Ttl: w.SigTTL},
+	return &dns.RRSIG{Hdr: dns.RR_Header{Name: spellName(w.SigOwner, w.Spell.SigOwner), Rrtype: dns.TypeRRSIG, Class: w.SigClass, Ttl: w.SigTTL},
 		TypeCovered: w.F.TypeCovered, Algorithm: w.F.Alg, Labels: w.F.Labels, OrigTtl: w.F.OrigTTL, Expiration: w.F.Expiration,
-		Inception: w.F.Inception, KeyTag: w.F.KeyTag, SignerName: wm.EscName(w.F.Signer), Signature: base64.StdEncoding.EncodeToString(w.Signature)}
+		Inception: w.F.Inception, KeyTag: w.F.KeyTag, SignerName: spellName(w.F.Signer, w.Spell.Signer), Signature: base64.StdEncoding.EncodeToString(w.Signature)}
 }
 
 // libVerify runs RRSIG.Verify on library values built from w. A world whose records cannot even be
